@@ -91,6 +91,7 @@ def main(argv=None):
                 merged['crashes'] += r['crashes']
                 merged['samples'] += r['samples']
                 merged['rule'] += ' || ' + r['rule']
+                merged['bounds'] = dict(merged['bounds'], **{modname.split('.')[-1]: r['bounds']})
                 merged['counters'].update(r['counters'])
         bounded = merged
         fails.extend(bounded['fails'])
